@@ -144,3 +144,13 @@ Theorem tie_type_hash_field_loop :
   | _ => False
   end.
 Proof. reflexivity. Qed.
+
+(* ---- GobTypesHash returns the accumulated hash; GobTypesHashReset sets it to zero (and touches nothing else) ---- *)
+Definition run_hash_fn (f : gfunc) (h : Z) : option (list value * list effect) :=
+  run (fun _ _ _ => None) no_fcmp no_loop (fun vs s => Some (vs, eff s)) (fun _ => None) f
+      [] [("gobTypesHash", VZ h)] (fun s => Some ([], eff s)).
+
+Theorem tie_types_hash_accessors : forall h,
+  run_hash_fn fn_GobTypesHash h = Some ([VZ h], []) /\
+  run_hash_fn fn_GobTypesHashReset h = Some ([], [("assign gobTypesHash", [VZ 0])]).
+Proof. intros h; split; reflexivity. Qed.
